@@ -70,7 +70,10 @@ def corpus(ctx):
             # pre-fix F (052c5d2): the flank midpoint (a + b) / 2 wrapped in the signal's own integer type
             dict(kind='seq', sig=[1, 1, 2, 2, 2], peaks=[4], troughs=[0], dt='int16'),
             # a LOUD stretch (sum of |samples| about 2^30: a single-precision running total no longer resolves 20 counts) before QUIET asymmetric flanks, as ADC counts
-            dict(kind='seq', sig=[30000, -30000] * 20000 + [-20, 14, 16, 18, 19, 20, 19, 18, -16, -19, -20], peaks=[40005], troughs=[40000, 40010], raw_dt='int16')]
+            dict(kind='seq', sig=[30000, -30000] * 20000 + [-20, 14, 16, 18, 19, 20, 19, 18, -16, -19, -20], peaks=[40005], troughs=[40000, 40010], raw_dt='int16'),
+            # directed: flanks BEYOND sample 2^16 and 2^17 (a minute of a 1250 Hz recording): the midpoints are sample indices of the whole recording
+            dict(kind='seq', sig=[0] * 70000 + [-4, 0, 3, 5, 4, 1, -3, -5, -2, 2, 6], peaks=[70003, 70010], troughs=[70000, 70007]),
+            dict(kind='seq', sig=[0] * 131080 + [5, 4, 1, -3, -5, -2, 2, 6, 3, -1, -6], peaks=[131080, 131087], troughs=[131084, 131090])]
 
 def generate(ctx):
     cases = []
